@@ -316,7 +316,7 @@ def oracle_c06(w, trace, report):
             if asleep:
                 reused = any(o is not None and o["registered"] and o["result"] is None and w["jobs"][jj].get("reuse")
                              for jj, o in enumerate(sn["jobs"]))
-                report("C06:hang:jobs-asleep:" + "+".join(asleep) + (":reused-dependency-object" if reused else ""),
+                report("C06:hang:reused-dependency-object-never-ready" if reused else "C06:hang:jobs-asleep:" + "+".join(asleep),
                        f"after step {si}: nothing pending, nothing ready, jobs without final state: {asleep}")
             elif sn["wait"] == "blocked":
                 report("C06:hang:wait-blocked-all-final" + (":after-resubmit" if resub else ""),
